@@ -31,6 +31,7 @@ type GenCfg struct {
 	NoCmpChain  bool // gate: a < b == c
 	Alphabet    string
 	Upper       bool // allow upper-case initial identifiers
+	Builtins    bool // input, read, write, exists, @prog calls (programs are not executable blindly)
 }
 
 type gvar struct {
@@ -977,8 +978,71 @@ func (g *Gen) callStmt() []Stmt {
 	return []Stmt{VarDecl{Names: names, Short: true, Values: []Expr{call}}}
 }
 
+func (g *Gen) appChain() AppCall {
+	n := 1 + g.r.Intn(3)
+	st := []AppStage{}
+	for i := 0; i < n; i++ {
+		name := []string{"ls", "grep", "sort", "cat", "mytool"}[g.r.Intn(5)]
+		lit := false
+		if g.r.Intn(5) == 0 {
+			name, lit = "./tools/run.sh", true
+		}
+		args := []Expr{}
+		for k := g.r.Intn(3); k > 0; k-- {
+			args = append(args, g.expr(TString, 1))
+		}
+		st = append(st, AppStage{Name: name, NameLit: lit, Args: args})
+	}
+	return AppCall{st}
+}
+
+func (g *Gen) builtinStmt() []Stmt {
+	switch g.r.Intn(7) {
+	case 0:
+		w := Write{Path: g.expr(TString, 1), Data: g.expr(TString, g.cfg.ExprDepth-1)}
+		if g.r.Intn(2) == 0 {
+			w.Append = g.expr(TBool, 1)
+		}
+		return []Stmt{w}
+	case 1:
+		e := Read{g.expr(TString, 1)}
+		v := g.newVar(TString, nil, false)
+		g.declare(v)
+		return []Stmt{VarDecl{Names: []string{v.name}, Short: true, Values: []Expr{e}}}
+	case 2:
+		e := Exists{g.expr(TString, 1)}
+		v := g.newVar(TBool, nil, false)
+		g.declare(v)
+		return []Stmt{VarDecl{Names: []string{v.name}, Short: true, Values: []Expr{e}}}
+	case 3:
+		in := Input{}
+		if g.r.Intn(2) == 0 {
+			in.Prompt = g.expr(TString, 1)
+		}
+		v := g.newVar(TString, nil, false)
+		g.declare(v)
+		return []Stmt{VarDecl{Names: []string{v.name}, Short: true, Values: []Expr{in}}}
+	case 4:
+		return []Stmt{ExprStmt{g.appChain()}}
+	case 5:
+		chain := g.appChain()
+		o := g.newVar(TString, nil, false)
+		g.declare(o)
+		e := g.newVar(TString, nil, false)
+		g.declare(e)
+		c := g.newVar(TInt, nil, false)
+		g.declare(c)
+		return []Stmt{VarDecl{Names: []string{o.name, e.name, c.name}, Short: true, Values: []Expr{chain}}}
+	default:
+		return []Stmt{If{Branches: []IfBranch{{Exists{g.expr(TString, 1)}, []Stmt{Print{[]Expr{Read{g.expr(TString, 1)}}}}}}}}
+	}
+}
+
 func (g *Gen) stmt() []Stmt {
 	canNest := g.depth < g.cfg.MaxDepth
+	if g.cfg.Builtins && g.r.Intn(6) == 0 {
+		return g.builtinStmt()
+	}
 	for {
 		switch g.r.Intn(20) {
 		case 0, 1, 2:
